@@ -172,7 +172,9 @@ def load_known():
 def run_property(prop, build_tasks, level="proof", tier="quick", seed=0, assumptions=(), trusted=(), extra_cov=None):
     global _CTX, _TASKS, _PROP
     t0 = time.time()
-    evid_path = os.path.join(ROOT, "evidence", prop + ".json")
+    # VERIF_EVIDENCE_DIR: the must-fail corpus and seeded-change runs write their evidence to a scratch directory,
+    # so that the committed evidence always comes from a run on /repo's unchanged tree
+    evid_path = os.path.join(os.environ.get("VERIF_EVIDENCE_DIR") or os.path.join(ROOT, "evidence"), prop + ".json")
     try:
         ctx = Ctx(REPO, tier, seed)
     except (progmod.ExportError, SpecError, Unsupported) as ex:
